@@ -157,6 +157,7 @@ theorem pushDefaultK_appends : ∀ (b : B) (k : Nat) (b' : B), WFB b → DefSafe
     have hv : VLen a.1 a.2.length := by simp only [WFB] at hw; exact hw.1
     rw [setValidityDefault_eq hv]
     obtain ⟨h1, h2⟩ := view_step hw false (packInline []) [] (decodeView_inline_isOk _ _ (by simp))
+      (by simpa using view_buf_lt hw)
     simp only [List.append_nil] at h1 h2
     refine ⟨h1, by simpa [B.isNullable] using hn, _, h2, ?_⟩
     intro hs; exact rowOf_false_of_isSome (hn.trans hs) _
@@ -352,6 +353,7 @@ theorem pushNone_appends : ∀ (b b' : B), WFB b → Safe b → pushNone b = .ok
     have hv : VLen v views.length := by simp only [WFB] at hwf; exact hwf.1
     obtain ⟨rfl, hs⟩ := isSome_of_setValidity_false hv h1
     have := view_step hwf false (packInline []) [] (decodeView_inline_isOk _ _ (by simp))
+      (by simpa using view_buf_lt hwf)
     simp only [List.append_nil] at this
     rwa [rowOf_false_of_isSome hs] at this
   | .fixedSizeBinary p n len v buf cur, b', hwf, _, h => by
@@ -535,13 +537,13 @@ theorem pushScalar_appends (ext : Ext) : ∀ (b : B) (x : SVal) (b' : B), WFB b 
   | .bytesView p ty v views buf, x, b', hwf, _, h => by
     simp only [pushScalar] at h
     obtain ⟨bs, _, h2⟩ := (bind_ok _ _ _).1 h
+    obtain ⟨vp, hp, h2⟩ := (bind_ok _ _ _).1 h2
     obtain ⟨v', h3, h4⟩ := (bind_ok _ _ _).1 h2
     have hv : VLen v views.length := by simp only [WFB] at hwf; exact hwf.1
     obtain ⟨rfl, _⟩ := setValidity_ok hv h3
-    obtain ⟨d, extra, hp, hd⟩ := viewPushValue_spec views buf bs
-    rw [hp] at h4
+    obtain ⟨d, extra, rfl, hd, hlen, _⟩ := viewPushValue_ok hp
     cases h4
-    obtain ⟨g1, g2⟩ := view_step hwf true d extra hd
+    obtain ⟨g1, g2⟩ := view_step hwf true d extra hd (hlen (view_buf_lt hwf))
     rw [rowOf_true] at g2
     refine ⟨g1, _, g2, ?_⟩
     intro t w j _ _ hj
